@@ -309,6 +309,8 @@ def run_invariance(ctx):
                          f'{maxdiff(base, aft)}', dict(v1=v1, v2=v2, method=meth, subset=sub))
     # cosine family: positive scaling of either argument
     sc = float(rng.uniform(0.05, 20))
+    if rng.integers(3) == 0:
+        sc = 10.0 ** float(gen.pick(rng, [-10, -8, -6, 6, 9]))      # change of physical units
     sig_s = gen.spd(rng, n_cond, 20.0) if rng.integers(2) else None
     for m in COS_MEASURES:
         kw = {'sigma_k': sig_s} if m.endswith('_cov') else {}
@@ -326,7 +328,7 @@ def run_invariance(ctx):
     # cosine family, a constant RDM -- e.g. a null model -- for the correlation family): the library takes another
     # code path then
     if rng.integers(3) == 0:
-        off_d = float(rng.uniform(-5, 5))
+        off_d = float(rng.uniform(-5, 5)) * (sc if (sc < 1e-3 or sc > 1e3) else 1.0)
         for fam, measures in (('cosine', COS_MEASURES), ('corr', CORR_MEASURES)):
             row = np.zeros((1, v1.shape[1])) if fam == 'cosine' else np.full((1, v1.shape[1]), float(rng.uniform(0.5, 3)))
             pos = int(rng.integers(v1.shape[0] + 1))
@@ -349,6 +351,8 @@ def run_invariance(ctx):
                                  dict(v1=v1d, v2=v2, scale=sc, offset=off_d if fam == 'corr' else 0.0))
     # correlation family: positive affine maps
     off = float(rng.uniform(-5, 5))
+    if sc < 1e-3 or sc > 1e3:
+        off = off * sc     # keep the offset commensurate with the values (x*1e-10 + 3 would cancel 10 digits)
     for m in CORR_MEASURES:
         kw = {'sigma_k': sig_s} if m.endswith('_cov') else {}
         sig = dict(measure=m, map='affine', sigma='matrix' if (sig_s is not None and kw) else 'none')
